@@ -33,6 +33,7 @@ import coqrun  # noqa: E402
 import gen_ops  # noqa: E402
 import macro_check  # noqa: E402
 import macro_gen  # noqa: E402
+import c18_check  # noqa: E402
 import ops as O  # noqa: E402
 import session  # noqa: E402
 from props import PROPS, CONFIGS, THOROUGH_CONFIGS, AXIOM_ALLOW  # noqa: E402
@@ -433,9 +434,38 @@ def check(pid, tier, seed):
                               distinct=len(set(c['line'] for c in mcases if c['impl'][0] == 1 or c['impl'][1] in (1, 2))),
                               sample=dict(input=mcases[0]['line'], implementation=mcases[0]['raw'][:300]))
 
+    c18_info = None
+    c18_viol = []
+    if 'c18' in P:
+        mdir = os.path.join(ROOT, 'harness', 'macro_drive')
+        if not os.path.exists(os.path.join(mdir, 'Cargo.lock')):
+            sh('cp %s %s' % (os.path.join(REPO, 'Cargo.lock'), os.path.join(mdir, 'Cargo.lock')))
+        rc, out = sh('cargo build --offline --target-dir %s' % os.path.join(CACHE, 'target-macro'), cwd=mdir, timeout=900)
+        if rc != 0:
+            broken.append(('build', 'macro_drive does not build: ' + out[-1500:]))
+        else:
+            r18 = c18_check.run(REPO, CACHE, os.path.join(CACHE, 'target-macro', 'debug', 'macro_drive'), seed, P['c18']['cases'] * scale)
+            if r18['error']:
+                broken.append(('build', 'C18 corpus could not be built: ' + r18['error']))
+            else:
+                for b in r18['corpus_bad']:
+                    c18_viol.append(dict(kind='corpus', **b))
+                for b in r18['token_forbidden'][:3]:
+                    c18_viol.append(dict(kind='forbidden-token-in-expansion', **b))
+                for b in r18['corpus_wrong_reason']:
+                    broken.append(('correspondence', 'unsound program %s is rejected, but not for the expected reason (%s): %s' % (b['program'], b['expected_error'], b['observed'])))
+                for b in r18['token_unknown'][:3]:
+                    broken.append(('correspondence', 'expansion contains tokens outside the translated grammar: %s (input %s)' % (b['tokens'], b['input'][:200])))
+                c18_info = dict(programs=len(r18['corpus']), expansions_checked=r18['expansions_checked'],
+                                template_idents=r18['template_idents'], patterns=r18['patterns'],
+                                corpus=[dict(program=n, expected='compiles' if e else 'rejected', observed='compiled' if o else f) for n, e, o, f in r18['corpus']])
+
     violations = []
     known_hits = []
     kf = known_findings()
+    for v in c18_viol:
+        path = write_replay(pid, dict(property=pid, kind='specification-violation', harness='c18', detail=v, broken=broken))
+        violations.append('VIOLATION property=%s replay=%s' % (pid, path))
     for c, msg in macro_fail[:3]:
         path = write_replay(pid, dict(property=pid, kind='specification-violation', harness='macro_drive', input=c['line'],
                                       implementation=c['raw'], reason=msg, broken=broken))
@@ -568,13 +598,14 @@ def check(pid, tier, seed):
             trusted_base=['Coq 8.16.1 kernel incl. vm_compute', 'tools/extract.py (translator)', 'correspondence harness (harness/storage_harness, tools/gen_ops.py, tools/coqrun.py)',
                           'rustc/cargo', 'axioms: ' + (', '.join(axioms) if axioms else 'none (Closed under the global context)')],
             theorems=thms, cone_files=conefiles,
-            evaluations=total_cases + (macro_info['cases'] if macro_info else 0), distinct_nontrivial=len(distinct) + (macro_info['distinct'] if macro_info else 0),
+            evaluations=total_cases + (macro_info['cases'] if macro_info else 0) + ((c18_info['programs'] + c18_info['expansions_checked']) if c18_info else 0),
+            distinct_nontrivial=len(distinct) + (macro_info['distinct'] if macro_info else 0) + ((c18_info['programs'] + c18_info['expansions_checked']) if c18_info else 0),
             rule='histories generated interactively from VERIF_SEED per stream; non-trivial = at least 10 operations including every kind in %s; distinct by the hash of the operation list' % sorted(need),
             traces_validated_against_impl=total_cases,
             model_disagreements=len(diffs), spec_failures=len(own),
             streams=[dict(config=cn, cases=s['cases'], ops=s['ops'], ops_by_kind=s['by_kind'], outcomes=s['outcomes']) for cn, s in stats_all],
             samples=([sample] if sample else []) + ([macro_info['sample']] if macro_info else []),
-            macro=macro_info,
+            macro=macro_info, c18=c18_info, programs=(c18_info['programs'] if c18_info else 0),
             exhaustive=any(r['case'].get('exhaustive') for r in all_results) if pid == 'C11' else False,
             explanation='machine-checked theorems over the model; model tied to the source by translation (coq/gen regenerated this run) and by differential execution of the same operations on the implementation',
         ),
@@ -591,9 +622,27 @@ def check(pid, tier, seed):
     return 1 if violations else 0
 
 
+def c18_corpus_run():
+    import c18_corpus
+    return c18_corpus.run(REPO, CACHE)
+
+
 def replay(path):
     j = json.load(open(path))
     pid = j['property']
+    if j.get('harness') == 'c18':
+        d = j['detail']
+        if d['kind'] == 'corpus':
+            res, err = c18_corpus_run()
+            for name, exp, ok, first in res or []:
+                if name == d['program']:
+                    print(name, 'expected', 'compiles' if exp else 'rejected', '- now', 'compiled' if ok else 'rejected: ' + first)
+                    if exp != ok:
+                        print('VIOLATION property=%s replay=%s' % (pid, path))
+                        return 1
+            return 0
+        print(json.dumps(d, indent=1))
+        return 0
     if j.get('harness') == 'macro_drive':
         mdir = os.path.join(ROOT, 'harness', 'macro_drive')
         rc, out = sh('cargo build --offline --target-dir %s' % os.path.join(CACHE, 'target-macro'), cwd=mdir, timeout=900)
